@@ -5,4 +5,4 @@ From MptV Require Import C18.LinepartModel C18.LinepartSpec C18.PolylineModel.
 Require Import ExtrOcamlBasic.
 Extraction "c18_model.ml" run run_merged apply set_parts linepart_linear linepart_code linepart_real linepart_join
   spec_classes spec_cross code_spec code_total zlen
-  polyline_set polyline_walk end_view apply_data_plain set_code array_set.
+  polyline_set polyline_walk end_view apply_data_plain apply_data_parts maxsize set_code array_set.
